@@ -258,7 +258,7 @@ pub struct RawSynth {
     pub flip: bool,
 }
 
-pub const N_PROFILES: u8 = 7;
+pub const N_PROFILES: u8 = 8;
 
 pub fn raw_synth() -> impl Strategy<Value = RawSynth> {
     raw_synth_profiles(0, N_PROFILES)
@@ -292,7 +292,9 @@ fn kind_for(profile: u8, k: u8, like: Kind) -> Kind {
         // 5 pawn play: en passant and promotion
         5 => &[Kind::Pawn, Kind::Pawn, Kind::Pawn, Kind::Pawn, Kind::Rook, Kind::Bishop, Kind::Knight, Kind::Queen],
         // 6 mating nets: queens and rooks around bare-ish kings
-        _ => &[Kind::Queen, Kind::Rook, Kind::Queen, Kind::Rook, Kind::Knight, Kind::Bishop, Kind::Pawn],
+        6 => &[Kind::Queen, Kind::Rook, Kind::Queen, Kind::Rook, Kind::Knight, Kind::Bishop, Kind::Pawn],
+        // 7 en-passant exposure skeleton plus a few bystanders
+        _ => &[Kind::Pawn, Kind::Knight, Kind::Bishop, Kind::Pawn, Kind::Rook, Kind::Queen, Kind::Pawn],
     };
     table[pick(k as u32, 8, table.len())]
 }
@@ -305,7 +307,8 @@ fn max_pieces(profile: u8) -> usize {
         3 => 7,
         4 => 10,
         5 => 12,
-        _ => 5,
+        6 => 5,
+        _ => 6,
     }
 }
 
@@ -335,6 +338,42 @@ pub fn synth(raw: &RawSynth, domain: ClockDomain) -> Pos {
         // the king to be mated likes edges and corners
         bk = [56, 63, 0, 7, 60, 59, 32, 39, 24, 31, 62, 57][(raw.bk % 12) as usize];
     }
+    // profile 7: king, own pawn, enemy pawn that has just made a double step and an enemy rook / queen on ONE rank,
+    // so that capturing en passant (which removes two pawns from the rank) exposes the king
+    let mut ep_skeleton: Option<(Sq, Vec<(Sq, Color, Kind)>)> = None;
+    if profile == 7 {
+        // built for white to move on rank 5 (index 4); the black-to-move case is the vertical mirror
+        let white = !raw.black_to_move;
+        let rank = if white { 4 } else { 3 };
+        let pf = 2 + (raw.wk % 4) as i32; // capturing pawn file 2..5, so that both sides of the pawn pair have room
+        let ef = if raw.bk % 2 == 0 { pf + 1 } else { pf - 1 }; // enemy pawn next to it
+        let (lo, hi) = (pf.min(ef), pf.max(ef));
+        // king on one side, heavy piece on the other
+        let king_left = raw.rights & 1 == 0;
+        let left_room = lo; // files 0..lo-1
+        let right_room = 7 - hi;
+        let (kf, rf) = if king_left {
+            ((raw.wk / 8) as i32 % left_room, hi + 1 + (raw.bk / 8) as i32 % right_room)
+        } else {
+            (hi + 1 + (raw.wk / 8) as i32 % right_room, (raw.bk / 8) as i32 % left_room)
+        };
+        let (us, them) = if white { (Color::White, Color::Black) } else { (Color::Black, Color::White) };
+        let heavy = if raw.rights & 2 == 0 { Kind::Rook } else { Kind::Queen };
+        let king_sq = sq(kf, rank);
+        let ep_sq = sq(ef, if white { 5 } else { 2 });
+        if white {
+            wk = king_sq;
+            if rank_of(bk) == rank {
+                bk = sq(file_of(bk), 7);
+            }
+        } else {
+            bk = king_sq;
+            if rank_of(wk) == rank {
+                wk = sq(file_of(wk), 0);
+            }
+        }
+        ep_skeleton = Some((ep_sq, vec![(sq(pf, rank), us, Kind::Pawn), (sq(ef, rank), them, Kind::Pawn), (sq(rf, rank), them, heavy)]));
+    }
     let mut k = 0;
     while adjacent(wk, bk) {
         bk = (bk + 1 + k) % 64;
@@ -342,6 +381,13 @@ pub fn synth(raw: &RawSynth, domain: ClockDomain) -> Pos {
     }
     p.board[wk as usize] = Some((Color::White, Kind::King));
     p.board[bk as usize] = Some((Color::Black, Kind::King));
+    if let Some((_, pieces)) = &ep_skeleton {
+        for &(s, c, k) in pieces {
+            if p.board[s as usize].is_none() {
+                p.board[s as usize] = Some((c, k));
+            }
+        }
+    }
     if profile == 4 {
         // rooks on their corners so that rights can exist
         for (s, c, bit) in [(H1, Color::White, 1u8), (A1, Color::White, 2), (H8, Color::Black, 4), (A8, Color::Black, 8)] {
@@ -381,6 +427,13 @@ pub fn synth(raw: &RawSynth, domain: ClockDomain) -> Pos {
             // push pawns towards the interesting ranks: 2, 4, 5, 7 (index 1, 3, 4, 6)
             let r = [1, 3, 4, 6, 1, 6, 3, 4][(sr / 8 % 8) as usize];
             s = (r * 8 + (sr % 8)) as usize;
+        }
+        if let Some((e, _)) = &ep_skeleton {
+            // bystanders stay off the skeleton's rank and off the squares the double step passed over
+            let r = rank_of(s as Sq);
+            if r == 3 || r == 4 || file_of(s as Sq) == file_of(*e) {
+                continue;
+            }
         }
         let mut tries = 0;
         while p.board[s].is_some() && tries < n {
@@ -432,7 +485,11 @@ pub fn synth(raw: &RawSynth, domain: ClockDomain) -> Pos {
             }
         }
     }
-    if !cands.is_empty() && raw.ep_sel % 4 != 0 {
+    if let Some((e, _)) = &ep_skeleton {
+        if cands.contains(e) && raw.ep_sel % 8 != 0 {
+            p.ep = Some(*e);
+        }
+    } else if !cands.is_empty() && raw.ep_sel % 4 != 0 {
         // prefer candidates an enemy pawn can actually capture
         let capt: Vec<Sq> = cands
             .iter()
